@@ -120,10 +120,12 @@ class ConnSpec:
             for j in range(nt):
                 cs.append(M[i][j] >= 0)
                 cs.append(M[i][j] <= self.limit[i][j])
+        def sm(xs):  # (a unary `(+ x)` is valid for z3 but rejected by cvc5's parser)
+            return z3.IntVal(0) if not xs else (xs[0] if len(xs) == 1 else z3.Sum(xs))
         for i in range(ns):
-            cs.append(self._deg_z3(self.src_deg[i], z3.Sum([M[i][j] for j in range(nt)]) if nt else z3.IntVal(0)))
+            cs.append(self._deg_z3(self.src_deg[i], sm([M[i][j] for j in range(nt)])))
         for j in range(nt):
-            cs.append(self._deg_z3(self.tgt_deg[j], z3.Sum([M[i][j] for i in range(ns)]) if ns else z3.IntVal(0)))
+            cs.append(self._deg_z3(self.tgt_deg[j], sm([M[i][j] for i in range(ns)])))
         return z3.And(*cs) if cs else z3.BoolVal(True)
 
     def brute_force(self, cap=4):
